@@ -313,6 +313,10 @@ func (u *UnitGen) cutLoop(fr *Frame, li *loopInfo, st *State) *State {
 	u.trackers = append(u.trackers, tr)
 	u.dry++
 	nEv, nInit := len(u.events), len(u.obs)
+	savedFacts := map[string]bool{}
+	for k := range u.g.reg.factSeen {
+		savedFacts[k] = true
+	}
 	savedCtr := map[string]int{}
 	for k, v := range u.obCtr {
 		savedCtr[k] = v
@@ -323,6 +327,7 @@ func (u *UnitGen) cutLoop(fr *Frame, li *loopInfo, st *State) *State {
 	u.events = u.events[:nEv]
 	u.obs = u.obs[:nInit]
 	u.obCtr = savedCtr
+	u.g.reg.factSeen = savedFacts
 	// havoc
 	ns := st.clone()
 	keys := make([]string, 0, len(tr))
